@@ -207,6 +207,7 @@ pub struct Stats {
     pub topp_strict: u64,
     pub topp_structural: u64,
     pub topp_exact: u64,
+    pub topp_p1_keeps_zero: u64,
     pub topk_k_gt_n: u64,
     pub topk_update_path: u64,
     pub temp_value_off: u64,
@@ -323,6 +324,14 @@ fn check_single(spec: &Spec, inp: &Input, out: &Out, st: &mut Stats) -> Result<(
             for j in 1..=k {
                 cum += sorted[j - 1];
                 if j < k && cum >= thr + tol {
+                    if *p == 1.0 {
+                        // p = 1 is documented (and unit-tested) as "no
+                        // filtering": candidates of probability exactly 0
+                        // after the point where the sum reaches 1 are kept.
+                        // Harmless and by design: counted, not flagged.
+                        st.topp_p1_keeps_zero += 1;
+                        break;
+                    }
                     return fail(
                         "topp_not_shortest",
                         format!("kept {} candidates but the top {} already have cumulative probability {:.7} >= p = {}", k, j, cum, fstr(*p)),
@@ -752,6 +761,7 @@ fn run_case(cx: &mut Ctx, spec: &Spec, inp: &Input, origin: &str) {
         cx.rep.add("topp_strict_prefix_checked", st.topp_strict);
         cx.rep.add("topp_structural_only", st.topp_structural);
         cx.rep.add("topp_exact_threshold_decisions", st.topp_exact);
+        cx.rep.add("topp_p1_passthrough_keeps_zero_probability", st.topp_p1_keeps_zero);
         cx.rep.add("temperature_value_not_x_over_t", st.temp_value_off);
         match res {
             Ok(out) => {
